@@ -828,6 +828,59 @@ fn run(ctx: &mut Ctx) {
           }
         }
     }
+    // memory map: the entries are handed out only when the entry size is the specified 24, whatever the version says
+    ctx.bound("mmap_entry_size", "memory-map tags with entry_size in {0, 8, 16, 23, 24, 25, 32, 40, 48, 72, 96} x entry_version in {0, 1, 2, 0xFFFFFFFF} x payload lengths 0, 8, .., 144: memory_areas() is refused (controlled panic) unless entry_size is 24, and then hands out payload / 24 areas at 16 + 24 i inside the declared size");
+    for es in [0u32, 8, 16, 23, 24, 25, 32, 40, 48, 72, 96] {
+        for ver in [0u32, 1, 2, 0xFFFF_FFFF] {
+            for pl in (0..=144usize).step_by(8) {
+                let size = 16 + pl;
+                let mut img = vec![0u8; round8(size)];
+                for i in 8..img.len() {
+                    img[i] = marker(i, 4);
+                }
+                wr32(&mut img, 0, bi::MMAP);
+                wr32(&mut img, 4, size as u32);
+                wr32(&mut img, 8, es);
+                wr32(&mut img, 12, ver);
+                let describe = || J::obj().set("part", "mmap_entry_size").set("entry_size", es).set("entry_version", ver).set("payload_len", pl);
+                ctx.leaf(describe, |ctx| {
+                    ctx.state_direct();
+                    ctx.nontrivial();
+                    ctx.under_fills("c05/o5/mmap", |ctx, fill| {
+                        huge_pal.fill(fill);
+                        let p = huge_pal.place_right(&img);
+                        let slice: &[u8] = unsafe { std::slice::from_raw_parts(p, img.len()) };
+                        let g = Generic::ref_from_slice(slice).unwrap();
+                        let r = ctx.call("cast+memory_areas", || {
+                            let t = g.cast::<multiboot2::MemoryMapTag>();
+                            let a = t.memory_areas();
+                            (rel(a, p), a.len())
+                        });
+                        match r {
+                            Out::Panic => {
+                                ctx.ob("mmap.panic", 1);
+                                if es == 24 && pl % 24 == 0 {
+                                    ctx.violation("c05/mmap/spurious-panic", || format!("memory_areas() panicked on a map of {} bytes with entry size 24, version {}", pl, ver));
+                                } else {
+                                    ctx.class("mmap:refused");
+                                }
+                            }
+                            Out::Val((off, n)) => {
+                                ctx.ob("mmap.n", n as u64);
+                                if es != 24 || pl % 24 != 0 {
+                                    ctx.violation("c05/mmap/entry-size-accepted", || format!("memory_areas() handed out {} areas at offset {} for entry_size {}, version {}, payload {}: the entry size is not the specified 24 (or the payload not a multiple of it)", n, off, es, ver, pl));
+                                } else if off != 16 || n != pl / 24 {
+                                    ctx.violation("c05/mmap/extent", || format!("memory_areas() = {} areas at offset {}, expected {} at 16", n, off, pl / 24));
+                                } else {
+                                    ctx.class("mmap:ok");
+                                }
+                            }
+                        }
+                    });
+                });
+            }
+        }
+    }
     // large declared sizes: element counts on both sides of 2^12, 2^16 and 2^20
     ctx.bound("large_sizes", "per DST kind: declared sizes B-1, B, B+1 and the nearest sizes FIXED + k*ELEM below and above B, for B in {4096, 65536, 2^20} (quick: without 2^20); tag-level seam, tag physically present and flush against a guard page");
     let huge = Arena::new(270);
